@@ -77,7 +77,7 @@ theorem tableSp_eq (d : Dialect) (args : List (Val β)) : tableSp d args = (name
   | cons a as ih =>
     simp only [tableSp, namedEntries, ih, List.map_append]
     congr 1
-    cases a <;> simp [entSp, es, annot_eq, List.map_map, Function.comp_def, List.zip_map_right]
+    cases a <;> simp [entSp, annot_eq, List.map_map, Function.comp_def, List.zip_map_right]
     rename_i fs vs
     have := fieldsSp_eq d 7 (structSp_eq d 7) fs vs
     simpa [structEntries] using this
@@ -560,6 +560,365 @@ theorem quoteTo_step (hG : ∀ w, w.depth < n → Good d av w) (c : Val β) (hd 
       have := depthL_mem hw; simp only [Val.depth] at hd; omega) hok
   | _ => simp [colSp] at hok
 
+/-- clause/where.go buildExprs over plain members -/
+theorem whereLoop_step (hG : ∀ w, w.depth < n → Good d av w) (multi : Bool) (es : List (Val β))
+    (hd : ∀ w ∈ es, w.depth < n) :
+    ∀ (first : Bool) (st : St β), (Sp.cat (es.map (spec d))).ok = true →
+      Step (whereLoop av multi first es st) st (Sp.cat (es.map (spec d))).xs := by
+  induction es with
+  | nil => intro first st _; exact Step.rfl' st
+  | cons e es ih =>
+    intro first st hok
+    simp only [List.map, Sp.cat_cons, Sp.app_ok, Bool.and_eq_true] at hok
+    simp only [whereLoop, List.map, Sp.cat_cons, Sp.app_xs]
+    have h0 : Step (if first then st else st.writeStr " AND ") st [] := by
+      cases first
+      · exact Step.writeStr st _
+      · exact Step.rfl' st
+    have he := hG e (hd e (by simp)) hok.1
+    have ih' := ih (fun w hw => hd w (by simp [hw])) false
+    cases hw : (multi && needsWrap e)
+    · simp only [Bool.false_eq_true, if_false]
+      exact Step.pre h0 ((he _).trans (ih' _ hok.2))
+    · simp only [if_true]
+      have a := (Step.pre (h0.post (Step.writeByte _ '(')) (he _)).post (Step.writeByte _ ')')
+      exact a.trans (ih' _ hok.2)
+
+theorem optWhere_step (hG : ∀ w, w.depth < n → Good d av w) (es : List (Val β)) (hd : ∀ w ∈ es, w.depth < n)
+    (st : St β) (hok : (Sp.cat (es.map (spec d))).ok = true) :
+    Step (optWhere av es st) st (Sp.cat (es.map (spec d))).xs := by
+  unfold optWhere
+  cases es with
+  | nil => exact Step.rfl' st
+  | cons e r =>
+    simp only [List.isEmpty_cons, Bool.false_eq_true, if_false]
+    exact (Step.pre (Step.writeStr st _) (whereLoop_step hG _ (e :: r) hd true _ hok)).post (Step.writeByte _ ' ')
+
+/-- clause/set.go Set.Build -/
+theorem setLoop_step (hG : ∀ w, w.depth < n → Good d av w) (cs : List (Val β)) :
+    ∀ (vs : List (Val β)) (first : Bool) (st : St β), (∀ c ∈ cs, c.depth ≤ n + 1) → (∀ w ∈ vs, w.depth < n) →
+      (setSp (cs.map fun v => (v, spec d v)) (vs.map fun v => (v, spec d v))).ok = true →
+      Step (setLoop (quoteTo av) av first cs vs st) st
+        (setSp (cs.map fun v => (v, spec d v)) (vs.map fun v => (v, spec d v))).xs := by
+  induction cs with
+  | nil => intro vs first st _ _ _; simp only [setLoop, List.map, setSp, Sp.none_xs]; exact Step.rfl' st
+  | cons c cs ih =>
+    intro vs first st hc hv hok
+    cases vs with
+    | nil => simp only [setLoop, List.map, setSp, Sp.none_xs]; exact Step.rfl' st
+    | cons v vs =>
+      simp only [List.map, setSp, Sp.app_ok, Bool.and_eq_true] at hok
+      simp only [setLoop, List.map, setSp, Sp.app_xs]
+      have h0 : Step (if first then st else st.writeByte ',') st [] := by
+        cases first
+        · exact Step.writeByte st ','
+        · exact Step.rfl' st
+      have q := quoteTo_step hG c (hc c (by simp)) (if first then st else st.writeByte ',') hok.1.1
+      have a := (Step.pre h0 q).post (Step.writeByte _ '=')
+      have b := a.trans (hG v (hv v (by simp)) hok.1.2 _)
+      exact b.trans (ih vs false _ (fun x hx => hc x (by simp [hx])) (fun x hx => hv x (by simp [hx])) hok.2)
+
+/-- one row of clause.Values -/
+theorem row_step (hG : ∀ w, w.depth < n → Good d av w) (r : Val β) (hd : r.depth < n) (st : St β)
+    (hok : (spec d r).ok = true) : Step (commaSep av (rowCells r) st) st (spec d r).xs := by
+  cases r with
+  | ilist cs =>
+    simp only [rowCells, spec, catSnd_annot] at hok ⊢
+    exact commaSep_step hG cs (fun x hx => by have := depthL_mem hx; simp only [Val.depth] at hd; omega) st hok
+  | _ =>
+    simp only [rowCells, commaSep, commaSepAux, if_true]
+    exact hG _ hd hok st
+
+theorem rowsLoop_step (hG : ∀ w, w.depth < n → Good d av w) (rs : List (Val β)) (hd : ∀ r ∈ rs, r.depth < n) :
+    ∀ (first : Bool) (st : St β), (Sp.cat (rs.map (spec d))).ok = true →
+      Step (rowsLoop av first rs st) st (Sp.cat (rs.map (spec d))).xs := by
+  induction rs with
+  | nil => intro first st _; exact Step.rfl' st
+  | cons r rs ih =>
+    intro first st hok
+    simp only [List.map, Sp.cat_cons, Sp.app_ok, Bool.and_eq_true] at hok
+    simp only [rowsLoop, List.map, Sp.cat_cons, Sp.app_xs]
+    have h0 : Step ((if first then st else st.writeByte ',').writeByte '(') st [] := by
+      cases first
+      · exact (Step.writeByte st ',').post (Step.writeByte _ '(')
+      · exact Step.writeByte st '('
+    have a := (Step.pre h0 (row_step hG r (hd r (by simp)) _ hok.1)).post (Step.writeByte _ ')')
+    exact a.trans (ih (fun x hx => hd x (by simp [hx])) false _ hok.2)
+
+/-- Statement.Build / Clause.Build over the present clauses -/
+theorem clausesLoop_step (hG : ∀ w, w.depth < n → Good d av w) (ns : List (List Char)) :
+    ∀ (es : List (Val β)) (first : Bool) (st : St β), (∀ w ∈ es, w.depth < n) →
+      (Sp.cat ((es.take ns.length).map (spec d))).ok = true →
+      Step (clausesLoop av first ns es st) st (Sp.cat ((es.take ns.length).map (spec d))).xs := by
+  induction ns with
+  | nil => intro es first st _ _; simp only [clausesLoop, List.length_nil, List.take_zero, List.map, Sp.cat_nil, Sp.none_xs]; exact Step.rfl' st
+  | cons nm ns ih =>
+    intro es first st hd hok
+    cases es with
+    | nil => simp only [clausesLoop, List.take_nil, List.map, Sp.cat_nil, Sp.none_xs]; exact Step.rfl' st
+    | cons e es =>
+      simp only [List.length_cons, List.take_succ_cons, List.map, Sp.cat_cons, Sp.app_ok, Bool.and_eq_true] at hok
+      simp only [clausesLoop, List.length_cons, List.take_succ_cons, List.map, Sp.cat_cons, Sp.app_xs]
+      have h0 : Step (if first then st else st.writeByte ' ') st [] := by
+        cases first
+        · exact Step.writeByte st ' '
+        · exact Step.rfl' st
+      have h1 : Step (if nm.isEmpty then (if first then st else st.writeByte ' ')
+          else ((if first then st else st.writeByte ' ').writeString nm).writeByte ' ') st [] := by
+        split
+        · exact h0
+        · exact (h0.post (Step.writeString _ nm)).post (Step.writeByte _ ' ')
+      have a := Step.pre h1 (hG e (hd e (by simp)) hok.1 _)
+      exact a.trans (ih es false _ (fun x hx => hd x (by simp [hx])) hok.2)
+
+theorem eqListElems_some {x : Val β} {vs : List (Val β)} (h : eqListElems x = some vs) :
+    spec d x = Sp.cat (vs.map (spec d)) ∧ eqNil x = false ∧ Val.depthL vs + 1 = x.depth := by
+  cases x with
+  | list s l =>
+    cases s <;> simp [eqListElems] at h
+    subst h
+    simp [spec, catSnd_annot, eqNil, Val.depth]
+  | ilist l =>
+    simp [eqListElems] at h
+    subst h
+    simp [spec, catSnd_annot, eqNil, Val.depth]
+  | _ => simp [eqListElems] at h
+
+theorem innSingle_some {vs : List (Val β)} {x : Val β} (h : innSingle vs = some x) : vs = [x] := by
+  match vs, h with
+  | [], h => simp [innSingle] at h
+  | [y], h => cases y <;> simp_all [innSingle]
+  | _ :: _ :: _, h => simp [innSingle] at h
+
 end
+
+/-! ### the main induction: `AddVar` -/
+
+/-- **Builder invariant for `Statement.AddVar`** (every arm), any fuel above the depth of the value (adequacy),
+    any start state: a well-formed value appends exactly its flattening and writes exactly the placeholders for it. -/
+theorem addVar_step (d : Dialect) : ∀ (n : Nat) (w : Val β), w.depth < n → Good d (addVar d n) w := by
+  intro n
+  induction n with
+  | zero => intro w h; omega
+  | succ n ih =>
+    intro v hd hok st
+    have hq := fun (c : Val β) (hc : c.depth ≤ n + 1) (s : St β) (h : (colSp c (spec d c)).ok = true) =>
+      quoteTo_step (d := d) ih c hc s h
+    cases v with
+    | nil => simp only [addVar, spec, Sp.one_xs]; exact Step.bind st _
+    | scalar b => simp only [addVar, spec, Sp.one_xs]; exact Step.bind st _
+    | dvaluer i b => simp only [addVar, spec, Sp.one_xs]; exact Step.bind st _
+    | nmap ks vs => simp only [addVar, spec, Sp.one_xs]; exact Step.bind st _
+    | strct fs vs => simp only [addVar, spec, Sp.one_xs]; exact Step.bind st _
+    | assign c x => simp only [addVar, spec, Sp.one_xs]; exact Step.bind st _
+    | named nm x => simp [spec] at hok
+    | bytes named bs =>
+      simp only [addVar, spec]
+      split
+      · exact Step.writeStr st _
+      · exact Step.bind st _
+    | gvaluer nilPtr inner =>
+      simp only [Val.depth] at hd
+      cases nilPtr
+      · simp only [addVar, spec, Bool.false_eq_true, if_false] at hok ⊢
+        exact ih inner (by omega) hok st
+      · simp only [addVar, spec, if_true]
+        have := ih .nil (by simp only [Val.depth]; omega) (by simp [spec]) st
+        simpa [spec] using this
+    | list s vs =>
+      simp only [Val.depth] at hd
+      simp only [addVar, spec, catSnd_annot] at hok ⊢
+      cases vs with
+      | nil => simp only [List.isEmpty_nil, if_true, List.map, Sp.cat_nil, Sp.none_xs]; exact Step.writeStr st _
+      | cons x xs =>
+        simp only [List.isEmpty_cons, Bool.false_eq_true, if_false]
+        exact (Step.pre (Step.writeByte st '(') (commaSep_step ih (x :: xs)
+          (fun w hw => by have := depthL_mem hw; omega) _ hok)).post (Step.writeByte _ ')')
+    | ilist vs =>
+      simp only [Val.depth] at hd
+      simp only [addVar, spec, catSnd_annot] at hok ⊢
+      cases vs with
+      | nil => simp only [List.isEmpty_nil, if_true, List.map, Sp.cat_nil, Sp.none_xs]; exact Step.writeStr st _
+      | cons x xs =>
+        simp only [List.isEmpty_cons, Bool.false_eq_true, if_false]
+        exact (Step.pre (Step.writeByte st '(') (commaSep_step ih (x :: xs)
+          (fun w hw => by have := depthL_mem hw; omega) _ hok)).post (Step.writeByte _ ')')
+    | column t nm al raw =>
+      have := hq (.column t nm al raw) (by simp [Val.depth]) st (by simp [colSp, spec])
+      simpa [addVar, colSp] using this
+    | table nm al raw =>
+      have := hq (.table nm al raw) (by simp [Val.depth]) st (by simp [colSp, spec])
+      simpa [addVar, colSp] using this
+    | expr sql args wop =>
+      simp only [Val.depth] at hd
+      simp only [addVar, spec] at hok ⊢
+      exact exprBuild_step ih sql args wop st (fun w hw => by have := depthL_mem hw; omega) hok
+    | nexpr sql args =>
+      simp only [Val.depth] at hd
+      simp only [addVar, spec] at hok ⊢
+      exact nexprBuild_step ih sql args st (by omega) hok
+    | cmp op col x =>
+      simp only [Val.depth] at hd
+      simp only [spec, Sp.app_ok, Bool.and_eq_true] at hok
+      simp only [addVar, spec, Sp.app_xs]
+      have s1 := hq col (by omega) st hok.1
+      have hx : x.depth < n := by omega
+      have plain : ∀ (t : String), (spec d x).ok = true →
+          Step (addVar d n x ((quoteTo (addVar d n) col st).writeStr t)) st ((colSp col (spec d col)).xs ++ (spec d x).xs) :=
+        fun t h => (s1.post (Step.writeStr _ t)).trans (ih x hx h _)
+      cases op with
+      | eq =>
+        simp only [beq_self_eq_true, Bool.true_or, Bool.true_and] at hok ⊢
+        cases hl : eqListElems x with
+        | some vs =>
+          obtain ⟨e1, e2, e3⟩ := eqListElems_some (d := d) hl
+          simp only [e2, Bool.false_eq_true, if_false] at hok ⊢
+          rw [e1] at hok ⊢
+          cases vs with
+          | nil => simp only [List.isEmpty_nil, if_true, List.map, Sp.cat_nil, Sp.none_xs, List.append_nil]; exact s1.post (Step.writeStr _ _)
+          | cons y ys =>
+            simp only [List.isEmpty_cons, Bool.false_eq_true, if_false]
+            exact ((s1.post (Step.writeStr _ _)).trans (commaSep_step ih (y :: ys)
+              (fun w hw => by have := depthL_mem hw; omega) _ hok.2)).post (Step.writeByte _ ')')
+        | none =>
+          cases hn : eqNil x
+          · simp only [hn, Bool.false_eq_true, if_false] at hok ⊢
+            exact plain _ hok.2
+          · simp only [hn, if_true, Sp.none_xs, List.append_nil]
+            exact s1.post (Step.writeStr _ _)
+      | neq =>
+        simp only [beq_self_eq_true, Bool.or_true, Bool.true_and] at hok ⊢
+        cases hl : eqListElems x with
+        | some vs =>
+          obtain ⟨e1, e2, e3⟩ := eqListElems_some (d := d) hl
+          simp only [e2, Bool.false_eq_true, if_false] at hok ⊢
+          rw [e1] at hok ⊢
+          exact ((s1.post (Step.writeStr _ _)).trans (commaSep_step ih vs
+            (fun w hw => by have := depthL_mem hw; omega) _ hok.2)).post (Step.writeByte _ ')')
+        | none =>
+          cases hn : eqNil x
+          · simp only [hn, Bool.false_eq_true, if_false] at hok ⊢
+            exact plain _ hok.2
+          · simp only [hn, if_true, Sp.none_xs, List.append_nil]
+            exact s1.post (Step.writeStr _ _)
+      | gt => exact plain _ (by simpa using hok.2)
+      | gte => exact plain _ (by simpa using hok.2)
+      | lt => exact plain _ (by simpa using hok.2)
+      | lte => exact plain _ (by simpa using hok.2)
+      | like => exact plain _ (by simpa using hok.2)
+      | notLike => exact plain _ (by simpa using hok.2)
+    | inn neg col vs =>
+      simp only [Val.depth] at hd
+      simp only [spec, catSnd_annot, Sp.app_ok, Bool.and_eq_true] at hok
+      simp only [addVar, spec, catSnd_annot, Sp.app_xs]
+      have s1 := hq col (by omega) st hok.1
+      cases vs with
+      | nil => simp only [List.isEmpty_nil, if_true, List.map, Sp.cat_nil, Sp.none_xs, List.append_nil]; exact s1.post (Step.writeStr _ _)
+      | cons y ys =>
+        simp only [List.isEmpty_cons, Bool.false_eq_true, if_false]
+        cases hs : innSingle (y :: ys) with
+        | some x =>
+          have e := innSingle_some hs
+          simp only [List.cons.injEq] at e
+          obtain ⟨rfl, rfl⟩ := e
+          simp only [List.map, Sp.cat_cons, Sp.cat_nil, Sp.app_ok, Sp.app_xs, Sp.none_xs, List.append_nil, Bool.and_eq_true] at hok ⊢
+          have hy : y.depth < n := by simp only [Val.depthL] at hd; omega
+          exact (s1.post (Step.writeStr _ _)).trans (ih y hy hok.2.1 _)
+        | none =>
+          exact ((s1.post (Step.writeStr _ _)).trans (commaSep_step ih (y :: ys)
+            (fun w hw => by have := depthL_mem hw; omega) _ hok.2)).post (Step.writeByte _ ')')
+    | values cols rows =>
+      simp only [Val.depth] at hd
+      simp only [addVar, spec, catSnd_annot, catCols_annot] at hok ⊢
+      cases hc : cols.isEmpty
+      · simp only [hc, Bool.false_eq_true, if_false, Sp.app_ok, Bool.and_eq_true, Sp.app_xs] at hok ⊢
+        have c1 := commaSepAux_stepG (quoteTo (addVar d n)) (fun c => colSp c (spec d c)) cols
+          (fun w hw h s => hq w (by have := depthL_mem hw; omega) s h) true (st.writeByte '(') hok.1
+        have c2 := ((Step.pre (Step.writeByte st '(') c1).post (Step.writeByte _ ')')).post (Step.writeStr _ " VALUES ")
+        exact c2.trans (rowsLoop_step ih rows (fun r hr => by have := depthL_mem hr; omega) true _ hok.2)
+      · simp only [hc, if_true, Sp.none_xs]
+        exact Step.writeStr st _
+    | set cols vals =>
+      simp only [Val.depth] at hd
+      simp only [addVar, spec, annot_eq] at hok ⊢
+      cases hc : cols.isEmpty
+      · simp only [hc, Bool.false_eq_true, if_false] at hok ⊢
+        exact setLoop_step ih cols vals true st (fun c hc => by have := depthL_mem hc; omega)
+          (fun w hw => by have := depthL_mem hw; omega) hok
+      · simp [hc] at hok
+    | limit hl nn lim op off =>
+      simp only [Val.depth] at hd
+      have hs : ∀ (b : β) (s : St β), Step (addVar d n (.scalar b) s) s [Val.scalar b] := fun b s => by
+        have := ih (.scalar b) (by simp only [Val.depth]; omega) (by simp [spec]) s
+        simpa [spec] using this
+      simp only [addVar, spec, Sp.app_xs]
+      cases hc : (hl && nn) <;> cases op <;>
+        simp only [Bool.false_eq_true, if_false, if_true, Sp.none_xs, Sp.one_xs, List.append_nil, List.nil_append]
+      · exact Step.rfl' st
+      · exact Step.pre (Step.writeStr st _) (hs off _)
+      · exact Step.pre (Step.writeStr st _) (hs lim _)
+      · exact (Step.pre (Step.writeStr st _) (hs lim _)).trans
+          (Step.pre ((Step.writeByte _ ' ').post (Step.writeStr _ _)) (hs off _))
+    | onConflict cons cols tw dn du w =>
+      simp only [Val.depth] at hd
+      simp only [spec, catSnd_annot, catCols_annot, Sp.app_ok, Bool.and_eq_true] at hok
+      simp only [addVar, spec, catSnd_annot, catCols_annot, Sp.app_xs]
+      obtain ⟨⟨hk1, hk2⟩, hk3⟩ := hok
+      -- target part
+      have t1 : Step (if (!cons.isEmpty) = true then ((st.writeStr "ON CONSTRAINT ").writeString cons).writeByte ' '
+            else optWhere (addVar d n) tw
+              (if cols.isEmpty = true then st else (commaSep (quoteTo (addVar d n)) cols (st.writeByte '(')).writeStr ") ")) st
+          (if (!cons.isEmpty) = true then Sp.none
+            else (Sp.cat (cols.map fun c => colSp c (spec d c))).app (Sp.cat (tw.map (spec d)))).xs := by
+        cases hcs : (!cons.isEmpty)
+        · simp only [hcs, Bool.false_eq_true, if_false, Sp.app_ok, Bool.and_eq_true, Sp.app_xs] at hk1 ⊢
+          have a : Step (if cols.isEmpty = true then st else (commaSep (quoteTo (addVar d n)) cols (st.writeByte '(')).writeStr ") ") st
+              (Sp.cat (cols.map fun c => colSp c (spec d c))).xs := by
+            cases cols with
+            | nil => simp only [List.isEmpty_nil, if_true, List.map, Sp.cat_nil, Sp.none_xs]; exact Step.rfl' st
+            | cons c cs =>
+              simp only [List.isEmpty_cons, Bool.false_eq_true, if_false]
+              have c1 := commaSepAux_stepG (quoteTo (addVar d n)) (fun c => colSp c (spec d c)) (c :: cs)
+                (fun w hw h s => hq w (by have := depthL_mem hw; omega) s h) true (st.writeByte '(') hk1.1
+              exact (Step.pre (Step.writeByte st '(') c1).post (Step.writeStr _ ") ")
+          exact a.trans (optWhere_step ih tw (fun x hx => by have := depthL_mem hx; omega) _ hk1.2)
+        · simp only [if_true, Sp.none_xs]
+          exact ((Step.writeStr st _).post (Step.writeString _ cons)).post (Step.writeByte _ ' ')
+      refine (Step.trans (Step.trans t1 ?_) (optWhere_step ih w (fun x hx => by have := depthL_mem hx; omega) _ hk3))
+      cases dn
+      · simp only [Bool.false_eq_true, if_false] at hk2 ⊢
+        exact Step.pre (Step.writeStr _ _) (ih du (by omega) hk2 _)
+      · simp only [if_true, Sp.none_xs]
+        exact Step.writeStr _ _
+    | whereC es =>
+      simp only [Val.depth] at hd
+      simp only [addVar, spec, catSnd_annot] at hok ⊢
+      exact whereLoop_step ih _ es (fun x hx => by have := depthL_mem hx; omega) true st hok
+    | clauseI nm e =>
+      simp only [Val.depth] at hd
+      simp only [addVar, spec] at hok ⊢
+      have h0 : Step (if nm.isEmpty then st else (st.writeString nm).writeByte ' ') st [] := by
+        split
+        · exact Step.rfl' st
+        · exact (Step.writeString st nm).post (Step.writeByte _ ' ')
+      exact Step.pre h0 (ih e (by omega) hok _)
+    | clauses ns es =>
+      simp only [Val.depth] at hd
+      simp only [addVar, spec, catSnd_annot_take] at hok ⊢
+      exact clausesLoop_step ih ns es true st (fun x hx => by have := depthL_mem hx; omega) hok
+    | subq ns es =>
+      simp only [Val.depth] at hd
+      simp only [addVar, spec, catSnd_annot_take] at hok ⊢
+      exact clausesLoop_step ih ns es true st (fun x hx => by have := depthL_mem hx; omega) hok
+    | rsub text vars =>
+      simp only [Val.depth] at hd
+      simp only [addVar, spec] at hok ⊢
+      split
+      · rename_i hc
+        simp only [hc, if_true] at hok
+        exact nexprBuild_step ih _ vars st (by omega) hok
+      · rename_i hc
+        simp only [hc, if_false] at hok
+        exact exprBuild_step ih _ vars false st (fun w hw => by have := depthL_mem hw; omega) hok
 
 end Gorm.Bind
